@@ -105,6 +105,32 @@ def calendar_specs(seed, n, tag):
     return out
 
 
+def both_specs(seed, n, tag):
+    """assets that are BOTH on a coarser frequency and periodic (4-hourly blocks repeating every day), with restrictions of their own"""
+    import random
+    out = []
+    for i in range(n):
+        rng = random.Random('%s/%s/%d' % (seed, tag, i))
+        g = {'start': '2021-05-03 00:00', 'freq': 'h', 'unit': 'h', 'tz': None}
+        g['end'] = (pd_ts(g['start']) + pd_td(days=rng.choice([2, 3]))).strftime('%Y-%m-%d %H:%M')
+        g['T'] = gen.grid_T(g)
+        prices = {}
+        cfg = {'p_window': 0.0, 'p_wacc': 0.0, 'p_coarse': 0.0, 'p_periodic': 0.0, 'p_cap_dict': 0.0, 'p_cap_key': 0.0, 'p_inflow': 0.0, 'p_blocks': 0.0}
+        assets = [gen.gen_simple_contract(rng, g, cfg, 'mA', 'A', prices, market=True)]
+        kind = rng.choice(['Storage', 'Storage', 'SimpleContract'])
+        if kind == 'Storage':
+            a = gen.gen_storage(rng, g, cfg, 'x', ['A'], prices)
+            a['end_level'] = a['start_level']
+            a.pop('cost_store', None)
+        else:
+            a = gen.gen_simple_contract(rng, g, cfg, 'x', 'A', prices)
+        a.update({'freq': rng.choice(['4h', '3h', '6h']), 'periodicity': 'd'})
+        a.pop('wacc', None)
+        assets.append(a)
+        out.append({'grid': g, 'prices': prices, 'assets': assets, 'opts': {}, 'id': '%s%d' % (tag, i), 'seed': '%s/%s/%d' % (seed, tag, i)})
+    return out
+
+
 def pd_ts(x):
     import pandas as pd
     return pd.Timestamp(x)
@@ -161,6 +187,7 @@ def run(ctx):
     n = 70 if ctx.tier == 'quick' else 500
     specs = util.corpus(ctx.prop) + gen.gen_many(ctx.seed, n, CFG, 'c13_')
     specs += calendar_specs(ctx.seed, 12 if ctx.tier == 'quick' else 60, 'c13cal_')
+    specs += both_specs(ctx.seed, 8 if ctx.tier == 'quick' else 40, 'c13both_')
     specs = [claim_domain(sp) for sp in ctx.specs(specs)]
     res = C.run_impl('reference', specs)
     small = [sp for sp in specs if sp['grid']['T'] <= 16]
